@@ -129,7 +129,7 @@ def _make_ctx(rng, quick, qn_mode, nmax):
     descs = L.random_basis_descs(rng, n, qn_mode)
     while int(np.prod([L.desc_nbas(d) for d in descs])) > (600 if quick else 1500):
         descs = descs[:-1]
-    descs2, spec = L.random_tree_spec(rng, descs)
+    descs2, spec = L.random_tree_spec(rng, descs, max_children=4)
     bl = L.make_basis_list(descs2)
     tree, bnodes = L.build_basis_tree(spec, bl)
     phys = [i for i, d in enumerate(descs2) if d["kind"] != "dummy"]
